@@ -23,6 +23,8 @@ type SmtLemma struct {
 	Trigger string // function symbol that makes the lemma relevant
 	Axiom   bool   // definitional axiom of an uninterpreted prelude function: not proved
 	Also    []string // variables that move together with the induction variable
+	QPattern  []*sx_   // trigger of the partially instantiated (schematic) form; default: the lemma's pattern
+	Schematic []string // variables kept universally quantified in an additional, partially instantiated form
 	Eager    bool    // definitional, non-recursive: instantiated at every new ground term in every variant
 	Monotone bool    // hyp(n) implies hyp(n-1): checked separately, lets the step use concl(n-1) directly
 }
@@ -69,6 +71,12 @@ func loadSmtLemmas(verifDir string) ([]*SmtLemma, error) {
 				lm.Monotone = true
 			case "eager":
 				lm.Eager = true
+			case "qpattern":
+				lm.QPattern = k.kids[1:]
+			case "schematic":
+				for _, v := range k.kids[1:] {
+					lm.Schematic = append(lm.Schematic, v.atom)
+				}
 			}
 		}
 		if lm.Concl == nil {
@@ -192,23 +200,61 @@ func (p *Program) lemmaInstances(lines []string, goal string) string {
 	return p.lemmaInstancesN(lines, goal, 3)
 }
 
-// lemmaFamilies groups trigger functions whose lemmas are used together. A goal that mentions
-// functions of some families only gets the lemmas of those families (plus the marker-triggered
-// ones, which are explicit requests); a goal mentioning none gets all of them, and a second
-// variant without any family lemma races it (noFamilies).
+// lemmaFamilies groups trigger functions whose lemmas are used together. A query gets the lemmas of
+// the families whose functions occur in the goal or in the defining equations its symbols depend
+// on (plus the marker-triggered lemmas, which are explicit requests). The legacy variant (mode 3
+// of the ladder) keeps instantiating every family.
 var lemmaFamilies = map[string]string{"prod": "prod", "nkept": "axes", "memb": "axes", "nnot1": "axes", "nkcong": "axes"}
 
-func (p *Program) relevantLemmas(goal string) map[*SmtLemma]bool {
+func (p *Program) relevantLemmas(goal string, lines []string) map[*SmtLemma]bool {
+	// the definition cone of the goal: its symbols and, transitively, the symbols of their
+	// defining equations (heap components excluded: they connect everything)
+	heapSym := func(s string) bool {
+		return strings.HasPrefix(s, "E$") || strings.HasPrefix(s, "F$") || strings.HasPrefix(s, "G$") || strings.HasPrefix(s, "B$") ||
+			strings.HasPrefix(s, "C$") || strings.HasPrefix(s, "MD$") || strings.HasPrefix(s, "MV$") || strings.HasPrefix(s, "GV$") || strings.HasPrefix(s, "$alloc")
+	}
+	cone := map[string]bool{}
+	for _, sy := range lineSymbols(goal) {
+		if !heapSym(sy) {
+			cone[sy] = true
+		}
+	}
+	text := goal
+	defs := map[string][]string{}
+	for _, l := range lines {
+		if m := defRe.FindStringSubmatch(l); m != nil {
+			defs[m[1]] = append(defs[m[1]], l)
+		}
+	}
+	done := map[string]bool{}
+	for changed := true; changed; {
+		changed = false
+		for sy := range cone {
+			if done[sy] {
+				continue
+			}
+			done[sy] = true
+			for _, l := range defs[sy] {
+				text += " " + l
+				for _, s2 := range lineSymbols(l) {
+					if !heapSym(s2) && !cone[s2] {
+						cone[s2] = true
+						changed = true
+					}
+				}
+			}
+		}
+	}
 	fams := map[string]bool{}
 	for fn, fam := range lemmaFamilies {
-		if strings.Contains(goal, "("+fn+" ") {
+		if strings.Contains(text, "("+fn+" ") {
 			fams[fam] = true
 		}
 	}
 	out := map[*SmtLemma]bool{}
 	for _, lm := range p.lemmas {
 		fam, ok := lemmaFamilies[lm.Trigger]
-		if !ok || (len(fams) == 0 && !p.noFamilies) || fams[fam] {
+		if !ok || fams[fam] {
 			out[lm] = true
 		}
 	}
@@ -217,8 +263,18 @@ func (p *Program) relevantLemmas(goal string) map[*SmtLemma]bool {
 
 func (p *Program) lemmaInstancesN(lines []string, goal string, rounds int) string {
 	fullSecond := rounds >= 3
-	if goal != "" {
-		rel := p.relevantLemmas(goal)
+	if p.noFamilies {
+		var ls []*SmtLemma
+		for _, lm := range p.lemmas {
+			if _, fam := lemmaFamilies[lm.Trigger]; !fam {
+				ls = append(ls, lm)
+			}
+		}
+		q := *p
+		q.lemmas = ls
+		p = &q
+	} else if goal != "" && !p.legacyLemmas {
+		rel := p.relevantLemmas(goal, lines)
 		if len(rel) < len(p.lemmas) {
 			var ls []*SmtLemma
 			for _, lm := range p.lemmas {
@@ -337,6 +393,46 @@ func (p *Program) lemmaInstancesOnce(lines []string, goal string, skip map[strin
 					more = append(more, l)
 				}
 			}
+			// goal-directed pairing: two-pattern lemmas only combine applications of which at least
+			// one stems from the goal (occurs in it, or in an unfolding instance of a goal term)
+			focus := map[string]bool{}
+			if gt := parseSexpr(goal); gt != nil {
+				for _, lm := range p.lemmas {
+					if lm.Trigger != "" {
+						found := map[string]*sx_{}
+						collectApps(gt, lm.Trigger, map[string]bool{}, found)
+						for k := range found {
+							focus[k] = true
+						}
+					}
+				}
+			}
+			if len(focus) > 0 {
+				for _, l := range strings.Split(first, "\n") {
+					hit := false
+					for a := range focus {
+						if strings.Contains(l, a) {
+							hit = true
+							break
+						}
+					}
+					if !hit {
+						continue
+					}
+					if t := parseSexpr(l); t != nil {
+						for _, lm := range p.lemmas {
+							if lm.Trigger != "" {
+								found := map[string]*sx_{}
+								collectApps(t, lm.Trigger, map[string]bool{}, found)
+								for k := range found {
+									focus[k] = true
+								}
+							}
+						}
+					}
+				}
+				pr.focus = focus
+			}
 			return first + pr.lemmaInstancesOnce(more, goal, skip, -2)
 		}
 	}
@@ -416,6 +512,17 @@ func (p *Program) lemmaInstancesOnce(lines []string, goal string, skip map[strin
 					}
 				}
 			}
+			if np > 1 && p.focus != nil && distinct {
+				any := false
+				for i := 0; i < np; i++ {
+					if p.focus[keys[idx[i]]] {
+						any = true
+					}
+				}
+				if !any {
+					distinct = false
+				}
+			}
 			if distinct || np == 1 {
 				bind := map[string]*sx_{}
 				var eqs []string
@@ -455,6 +562,22 @@ func (p *Program) lemmaInstancesOnce(lines []string, goal string, skip map[strin
 						hyp = substAtom(hyp, name, t)
 						concl = substAtom(concl, name, t)
 					}
+					if len(lm.Schematic) > 0 && len(eqs) == 0 {
+						if sch := lm.schematicInstance(bind); sch != "" && !seen[sch] && !skip[sch] {
+							seen[sch] = true
+							b.WriteString(sch + "\n")
+						}
+					}
+					unboundSchematic := false
+					for _, v := range lm.Schematic {
+						if _, have := bind[v]; !have {
+							unboundSchematic = true
+						}
+					}
+					if unboundSchematic {
+						// only the quantified form exists for this lemma
+						goto nextTuple
+					}
 					inst := "(assert (=> " + and(append(eqs, hyp.String())...) + " " + concl.String() + "))"
 					if pred != nil && lm.Axiom {
 						inst = pred.Replace(inst)
@@ -474,6 +597,7 @@ func (p *Program) lemmaInstancesOnce(lines []string, goal string, skip map[strin
 					}
 				}
 			}
+		nextTuple:
 			// next tuple
 			k := np - 1
 			for k >= 0 {
@@ -640,4 +764,38 @@ func looseMatch(a, b *sx_) bool {
 		return !lit
 	}
 	return sym(a) && sym(b)
+}
+
+// schematicInstance instantiates every variable but the schematic ones (which stay universally
+// quantified over Int, with the lemma's pattern as trigger): no array-sorted quantifier remains.
+func (lm *SmtLemma) schematicInstance(bind map[string]*sx_) string {
+	keep := map[string]bool{}
+	for _, v := range lm.Schematic {
+		keep[v] = true
+	}
+	hyp, concl := lm.Hyp, lm.Concl
+	src := lm.Pattern
+	if len(lm.QPattern) > 0 {
+		src = lm.QPattern
+	}
+	pats := make([]*sx_, len(src))
+	copy(pats, src)
+	for name, t := range bind {
+		if keep[name] {
+			continue
+		}
+		hyp = substAtom(hyp, name, t)
+		concl = substAtom(concl, name, t)
+		for i := range pats {
+			pats[i] = substAtom(pats[i], name, t)
+		}
+	}
+	var binders, ps []string
+	for _, v := range lm.Schematic {
+		binders = append(binders, "("+v+" Int)")
+	}
+	for _, p := range pats {
+		ps = append(ps, p.String())
+	}
+	return "(assert (forall (" + strings.Join(binders, " ") + ") (! (=> " + hyp.String() + " " + concl.String() + ") :pattern (" + strings.Join(ps, " ") + "))))"
 }
